@@ -328,6 +328,16 @@ pub unsafe fn io_uring_enter(fd: i32, to_submit: u32, min_complete: u32, flags: 
                 (None, None) => None,
             };
             match next {
+                Some(t) if !crate::is_active() => {
+                    let now = with_kernel(|k| k.clock_ns);
+                    let waited = os_wait(fd, Some(t.saturating_sub(now)));
+                    with_kernel(|k| k.clock_ns += waited);
+                    if deadline.map(|d| with_kernel(|k| k.clock_ns) >= d).unwrap_or(false) {
+                        timed_out = true;
+                        break;
+                    }
+                    continue;
+                }
                 Some(t) => {
                     with_kernel(|k| k.clock_ns = k.clock_ns.max(t));
                     with_stats(|s| s.clock_jumps += 1);
@@ -335,6 +345,11 @@ pub unsafe fn io_uring_enter(fd: i32, to_submit: u32, min_complete: u32, flags: 
                         timed_out = true;
                         break;
                     }
+                    continue;
+                }
+                None if !crate::is_active() => {
+                    // fidelity mode (no simulation on this thread, e.g. compio's own tests): really wait for the OS
+                    os_wait(fd, None);
                     continue;
                 }
                 None => {
@@ -435,4 +450,31 @@ fn complete_op(fd: i32, idx: usize) {
         }
     });
     let _ = Ordering::Relaxed;
+}
+
+/// Fidelity mode only: block in the real OS until one of the pending operations' descriptors is ready
+/// (or the timeout, in ns, elapses). Returns the time waited in ns.
+fn os_wait(ring_fd: i32, timeout_ns: Option<u64>) -> u64 {
+    let mut fds: Vec<libc::pollfd> = with_kernel(|k| {
+        k.rings[&ring_fd]
+            .ops
+            .iter()
+            .filter_map(|o| {
+                let ev = match o.opcode {
+                    ops::OP_READ | ops::OP_READV | ops::OP_RECV | ops::OP_RECVMSG | ops::OP_ACCEPT | ops::OP_READ_MULTISHOT => libc::POLLIN,
+                    ops::OP_WRITE | ops::OP_WRITEV | ops::OP_SEND | ops::OP_SENDMSG | ops::OP_SEND_ZC | ops::OP_SENDMSG_ZC | ops::OP_CONNECT => libc::POLLOUT,
+                    ops::OP_POLL_ADD => (o.opflags & 0xffff) as i16,
+                    _ => return None,
+                };
+                Some(libc::pollfd { fd: o.fd, events: ev, revents: 0 })
+            })
+            .collect()
+    });
+    let t0 = std::time::Instant::now();
+    let ms = match timeout_ns {
+        Some(ns) => ((ns + 999_999) / 1_000_000).min(i32::MAX as u64) as i32,
+        None => -1,
+    };
+    unsafe { libc::poll(fds.as_mut_ptr(), fds.len() as libc::nfds_t, ms) };
+    t0.elapsed().as_nanos() as u64
 }
